@@ -107,7 +107,7 @@ def iter_episode(spec, uid="E", shared=None, events=None):
     events = events if events is not None else []
     reals = shared if shared is not None else {}
     logged = set()
-    dobjs = {}
+    dobjs, robjs = {}, {}
     shared_parser = PumlParser()
     try:
         world = World(spec["world"]["modules"], spec["world"]["imports"]) if spec.get("world") else None
@@ -156,7 +156,17 @@ def iter_episode(spec, uid="E", shared=None, events=None):
                     with open(path, "w") as f:
                         f.write(render(lines, True, it.get("pre", ""), it.get("post", "")))
                 before = observe(ev)
-                if it.get("obj") is not None and it["obj"] in dobjs:      # a persistent DiagramRule object, re-applied
+                if it.get("robj") is not None:
+                    # a RE-TARGETED DiagramRule object: built once from its own file (written once), then pointed at
+                    # another base module with with_base_module(..) before each evaluation - 'one diagram checked
+                    # against several sibling packages'.  The last with_base_module call is the one that counts.
+                    if it["robj"] not in robjs:
+                        rpath = os.path.join(tmp, f"robj-{it['robj']}.puml")
+                        with open(rpath, "w") as f:
+                            f.write(render(lines, True, it.get("pre", ""), it.get("post", "")))
+                        robjs[it["robj"]] = DiagramRule(should_only_rule=it["only"]).from_file(Path(rpath))
+                    rule = robjs[it["robj"]].with_base_module(dotted(it["base"]))
+                elif it.get("obj") is not None and it["obj"] in dobjs:      # a persistent DiagramRule object, re-applied
                     rule = dobjs[it["obj"]]
                 else:
                     rule = DiagramRule(should_only_rule=it["only"]).from_file(Path(path))
